@@ -8,7 +8,9 @@
 """ Utilities to change indices and indexing in array expressions. """
 
 from loki.batch import Transformation, ProcedureItem
-from loki.expression import symbols as sym, simplify, is_constant
+from loki.expression import (
+    symbols as sym, simplify, is_constant, SubstituteExpressionsMapper
+)
 from loki.ir import (
     nodes as ir, FindNodes, FindVariables, SubstituteExpressions
 )
@@ -36,21 +38,31 @@ def shift_to_zero_indexing(routine, ignore=None):
         of an array subscript, that dimension is not shifted to zero.
     """
     ignore = as_tuple(ignore)
+
+    def shift(v):
+        new_dims = []
+        for d in v.dimensions:
+            # Arrays used inside the index expression need shifting, too
+            inner = {
+                a: shift(a) for a in FindVariables(unique=False).visit(d)
+                if isinstance(a, sym.Array) and a.dimensions
+            }
+            shifted = SubstituteExpressionsMapper(inner)(d) if inner else d
+            if isinstance(d, sym.RangeIndex):
+                start = shifted.start - sym.Literal(1) if shifted.start is not None else None
+                # no shift for stop because Python ranges are [start, stop)
+                new_dims += [sym.RangeIndex((start, shifted.stop, shifted.step))]
+            else:
+                if ignore and any(var in ignore for var in FindVariables().visit(d)):
+                    new_dims += [shifted]
+                else:
+                    new_dims += [shifted - sym.Literal(1)]
+        return v.clone(dimensions=as_tuple(new_dims))
+
     vmap = {}
     for v in FindVariables(unique=False).visit(routine.body):
         if isinstance(v, sym.Array):
-            new_dims = []
-            for d in v.dimensions:
-                if isinstance(d, sym.RangeIndex):
-                    start = d.start - sym.Literal(1) if d.start is not None else None
-                    # no shift for stop because Python ranges are [start, stop)
-                    new_dims += [sym.RangeIndex((start, d.stop, d.step))]
-                else:
-                    if ignore and any(var in ignore for var in FindVariables().visit(d)):
-                        new_dims += [d]
-                    else:
-                        new_dims += [d - sym.Literal(1)]
-            vmap[v] = v.clone(dimensions=as_tuple(new_dims))
+            vmap[v] = shift(v)
     routine.body = SubstituteExpressions(vmap).visit(routine.body)
 
 
